@@ -274,14 +274,14 @@ struct IsTuple<std::tuple<Ts...>> : std::true_type {};
 
 // the output as a list of codes: [failure] | [1] (Join) | [v] (WhenAny) | [c0..cn-1] (WhenAll)
 template <typename Out>
-std::vector<long> Encode(const yaclib::Result<Out, Err>& r) {
+std::vector<long> Encode(const yaclib::Result<Out, Err>& r, bool any) {
   std::vector<long> codes;
   if (r.State() != yaclib::ResultState::Value) {
     codes.push_back(FailCode(r));
     return codes;
   }
   if constexpr (std::is_void_v<Out>) {
-    codes.push_back(1);
+    codes.push_back(any ? 1000 : 1);  // WhenAny over void inputs: the (void) value of the winner; Join: plain success
   } else if constexpr (IsVector<Out>::value) {
     for (auto& x : r.Value()) {
       codes.push_back(CodeAny(x));
@@ -886,7 +886,7 @@ void RunImpl(const std::string& pat, const std::vector<int>& order, std::index_s
         std::move(f).DetachInline([&](yaclib::Result<OutV, Err>&& r) {
           ++obs.out_count;
           obs.out_seq = ++ck.now;
-          obs.codes = Encode(r);
+          obs.codes = Encode(r, IsAny(C::kKind));
         });
       }
       ck.attach_done = ++ck.now;
@@ -955,20 +955,21 @@ inline std::vector<std::vector<int>> Orders(std::size_t n) {
   return out;
 }
 
-// registers <cfg>/<pattern>/p (parallel producers) and <cfg>/<pattern>/q<order> (one producer fiber)
+// registers <cfg>/p/<pattern> (parallel producers racing with the builder), <cfg>/pp/<pattern> (builder first, then
+// parallel producers) and <cfg>/q<order>/<pattern> (one producer fiber completing in that order)
 template <typename C>
 void Register(vrt::Main& m, bool all_orders) {
   if constexpr (C::kN == 0) {
-    m.Scenario(C::Name() + "//e", [] {
+    m.Scenario(C::Name() + "/e/-", [] {
       RunEmpty<C>();
     });
   } else {
     for (auto& pat : Patterns(C::kN)) {
-      m.Scenario(C::Name() + "/" + pat + "/p", [pat] {
+      m.Scenario(C::Name() + "/p/" + pat, [pat] {
         Run<C>(pat, {});
       });
       if (C::kN > 1) {
-        m.Scenario(C::Name() + "/" + pat + "/pp", [pat] {
+        m.Scenario(C::Name() + "/pp/" + pat, [pat] {
           Run<C>(pat, {-1});
         });
       }
@@ -981,7 +982,7 @@ void Register(vrt::Main& m, bool all_orders) {
         for (int x : orders[k]) {
           tag += std::to_string(x);
         }
-        m.Scenario(C::Name() + "/" + pat + "/" + tag, [pat, ord = orders[k]] {
+        m.Scenario(C::Name() + "/" + tag + "/" + pat, [pat, ord = orders[k]] {
           Run<C>(pat, ord);
         });
       }
